@@ -7,8 +7,8 @@ Both read the scope tables (`Selene.Scope.St`, the model of `ScopeManager`).
 -/
 import Selene.Lints.TraverseB
 import Selene.Scope.Model
-namespace Selene.Lints.MismatchedArgCount
-open Selene.Lua Selene.Lints Selene.Scope
+namespace Selene.LintsB.MismatchedArgCount
+open Selene.Lua Selene.LintsB Selene.Scope
 
 /-- `ParameterCount` -/
 inductive PCount where
@@ -177,4 +177,4 @@ def run (b : Block) : List Diag := runWith (analyse b) b
 def recorded (v : Nat) (evs : List Ev) : List PCount :=
   evs.foldl (fun acc ev => if ev.var = v then (if ev.insert then [ev.count] else acc ++ [ev.count]) else acc) []
 
-end Selene.Lints.MismatchedArgCount
+end Selene.LintsB.MismatchedArgCount
